@@ -29,7 +29,7 @@ def build(d):
     nodes, state, text = (grammar.gen_pep440_pattern_and_state(d) if pep else grammar.gen_pattern_and_state(d, safe_seps=True))
     if nodes is None:
         return {"discard": state}
-    spec = projgen.gen_project(d, nodes, state, pep_shaped=pep, regimes=["lf", "lf", "crlf", "cr", "mixed"], cover_config=d.chance(1, 4))
+    spec = projgen.gen_project(d, nodes, state, pep_shaped=pep, regimes=["lf", "lf", "crlf", "cr", "mixed"], cover_config=d.chance(1, 4), nested=True)
     flags, date = projgen.gen_bump(d, nodes, state)
     return {"spec": spec, "flags": flags, "date": date}
 
@@ -105,6 +105,8 @@ def check(case):
         per_file[key] = len(idx)
     nt = any(len({v for segs in f["lines"] for k, v in segs if k == "o"}) >= 2 for f in spec["files"])
     classes = []
+    if any(p.get("nested") for p in spec["patterns"]):
+        classes.append("pattern-nested-in-another-patterns-occurrence")
     if any(sum(1 for k, _v in segs if k == "o") >= 2 for f in spec["files"] for segs in f["lines"]):
         classes.append("two-occurrences-share-a-line")
     if any("*" in key for key, _ in spec["entries"]):
